@@ -400,6 +400,50 @@ func c11narrow(c *Ctx, p *load.Program) {
 		}
 	}
 	R.Floor("C11.narrow", n, 3)
+	// the 32-byte fields (sender / emitter address, token id): accepted only when the decoded byte
+	// string has length exactly 32, and what is returned is a copy of exactly that string — a
+	// shorter value padded to 32 bytes or a prefix stripped before decoding makes two different
+	// event fields yield the same emitter address
+	tb := must(p.Func(pkgAlph, "toByte32"), "alephium.toByte32")
+	nb := 0
+	for _, r := range acceptingReturns(tb) {
+		nb++
+		fs := acceptFacts(r)
+		var V ssa.Value
+		for _, f := range fs {
+			x, op, y, ok := cmpOf(f)
+			if !ok || op != token.EQL {
+				continue
+			}
+			for _, pr := range [][2]ssa.Value{{x, y}, {y, x}} {
+				if k, isK := constInt(pr[0]); isK && k == 32 {
+					if l := lenOf(pr[1]); l != nil {
+						V = l
+					}
+				}
+			}
+		}
+		okSrc, okCopy := false, false
+		if V != nil {
+			vt := facts.Term(V)
+			okSrc = vt == "N/alephium.toByteVec(field)#0" || strings.HasPrefix(vt, "encoding/hex.DecodeString(field.ValByteVec.Value)")
+			eachInstr(tb, func(i ssa.Instruction) {
+				if cl, ok := i.(*ssa.Call); ok && facts.CalleeName(&cl.Call) == "copy" && len(cl.Call.Args) == 2 && facts.Term(cl.Call.Args[1]) == vt {
+					if sl, isSl := cl.Call.Args[0].(*ssa.Slice); isSl {
+						if ret, isAl := strip(r.Results[0]).(*ssa.Alloc); isAl && sl.X == ssa.Value(ret) {
+							okCopy = true
+						}
+					}
+				}
+			})
+		}
+		why := "no must-hold fact len(<decoded bytes>) == 32 on the accepted path"
+		if V != nil {
+			why = fmt.Sprintf("length-tested value %s: is the hex decoding of the field=%v, result is a copy of it=%v", facts.Term(V), okSrc, okCopy)
+		}
+		R.Check("C11.narrow", R.Key("C11.narrow", "toByte32", "accept"), c.rel(p.Pos(instrPos(r))), "toByte32 accepts exactly the fields whose hex decoding is 32 bytes long and returns those bytes", V != nil && okSrc && okCopy, why, facts.Atoms(fs)...)
+	}
+	R.Floor("C11.narrow.toByte32", nb, 1)
 }
 
 func c11fields(c *Ctx, p *load.Program) {
